@@ -320,7 +320,7 @@ class Gen:
                 s = r.randint(0, nc)
                 if s == c or (s != 0 and sp.reaches(s, c)):
                     continue
-                self.emit(['addsuper', c, s])
+                self.emit(['addsuper', c, s, r.choice(['append', 'append', 'insert', 'extend', 'iadd'])])
             elif x < 0.27:
                 if sp.supers[c] and r.random() < 0.9:
                     self.emit(['rmsuper', c, r.choice(sp.supers[c])])
